@@ -115,6 +115,30 @@ def pv(v):
 # instrumented callables (each knows the field it belongs to)
 
 
+class FalsyCall:
+    """A callable object whose truth value is False (attrs must test user callables for None, not truthiness)."""
+    def __init__(self, fn, how="bool"):
+        self.fn = fn
+        self.how = how
+        for k in ("sym", "ann"):
+            if hasattr(fn, k):
+                setattr(self, k, getattr(fn, k))
+
+    def __call__(self, *a, **kw):
+        return self.fn(*a, **kw)
+
+    def __bool__(self):
+        return False
+
+    def __len__(self):
+        return 0
+
+
+def init_function(cls):
+    """the generated initializer: __attrs_init__ for a class defined with init=False"""
+    return cls.__attrs_init__ if "__attrs_init__" in cls.__dict__ else cls.__init__
+
+
 def mk_factory(fld, fn, takes_self):
     if takes_self:
         def fac(self):
@@ -273,7 +297,14 @@ def gen_class_spec(rng, uid, base=None, hooks_ok=True, extras=False):
         fx["default"] = ("factory", rng.random() < 0.3)
         f_x["default"] = ("factory", rng.random() < 0.3)
     s["extras"] = bool(extras)
+    s["init_false"] = bool(extras and not s["cache_hash"] and rng.random() < 0.12)
     if extras:
+        for f in s["fields"]:
+            # falsy callable objects wherever a callable is accepted
+            if rng.random() < 0.2:
+                f["falsy"] = [r for r in ("factory", "converter", "validator", "hook") if rng.random() < 0.6]
+                if "converter" in f["falsy"] and f["converter"] is not None:
+                    f["converter"] = tuple(list(f["converter"][:-1]) + [False])     # a callable object carries no annotation
         convs = [f for f in s["fields"] if f["converter"] and f["converter"][0] == "conv"]
         others = [f for f in s["fields"]]
         # (a) one Converter object serving two fields of this class
@@ -379,7 +410,13 @@ class ClassUnderTest:
             if f["default"] == "value":
                 kw["default"] = Dflt(f["name"])
             elif f["default"] is not None:
-                kw["default"] = attr.Factory(mk_factory(f["name"], "f_" + fu, f["default"][1]), takes_self=f["default"][1])
+                fac = mk_factory(f["name"], "f_" + fu, f["default"][1])
+                if "factory" in f.get("falsy", ()):
+                    fac = FalsyCall(fac)
+                if "factory" in f.get("falsy", ()) and not f["default"][1]:
+                    kw["factory"] = fac                      # the factory= spelling
+                else:
+                    kw["default"] = attr.Factory(fac, takes_self=f["default"][1])
             if not f["init"]:
                 kw["init"] = False
             if f["kw_only"]:
@@ -392,12 +429,17 @@ class ClassUnderTest:
                     kw["converter"] = _CONV_REG[key]
                 else:
                     kw["converter"] = mk_converter(f["name"], "c_" + fu, f["converter"])
+                    if "converter" in f.get("falsy", ()) and f["converter"][0] == "plain":
+                        kw["converter"] = FalsyCall(kw["converter"])
+            mkv = (lambda *a: FalsyCall(mk_validator(*a))) if "validator" in f.get("falsy", ()) else mk_validator
             if f["validator"] and f["validator_style"] == "arg":
-                kw["validator"] = mk_validator(f["name"], "v_" + fu)
+                kw["validator"] = mkv(f["name"], "v_" + fu)
             if f["alias"]:
                 kw["alias"] = f["alias"]
             if f["on_setattr"] is not None:
                 kw["on_setattr"] = resolve_on_setattr(f["on_setattr"], fu)
+                if "hook" in f.get("falsy", ()) and f["on_setattr"] == "user":
+                    kw["on_setattr"] = FalsyCall(kw["on_setattr"])
             use_annot = s["style"] in ("annot",)
             if f["type"] and not use_annot:
                 kw["type"] = Ann("t_" + fu)
@@ -407,7 +449,7 @@ class ClassUnderTest:
                 continue
             ca = attr.ib(**kw) if s["api"] == "attrs" else attrs.field(**kw)
             if f["validator"] and f["validator_style"] == "decorator":
-                ca.validator(mk_validator(f["name"], "v_" + fu))
+                ca.validator(mkv(f["name"], "v_" + fu))
             field_objs.append((f, ca))
         for f, ca in field_objs:
             if s["style"] in ("these", "make_class"):
@@ -450,6 +492,8 @@ class ClassUnderTest:
             kwargs["eq"] = False if s["exc"] else True
         if s["on_setattr"] is not None:
             kwargs["on_setattr"] = resolve_on_setattr(s["on_setattr"], uid)
+        if s.get("init_false"):
+            kwargs["init"] = False
         if s["style"] == "annot" and s["api"] == "attrs":
             kwargs["auto_attribs"] = True
         name = "K" + uid
@@ -654,7 +698,12 @@ def construct(cut, pos, kw, fault_at=None, validators_on=True):
     inst = None
     try:
         try:
-            inst = cls(*pos, **dict(kw))
+            if "__attrs_init__" in cls.__dict__:
+                # defined with init=False: the equivalent initializer attrs provides instead
+                inst = cls.__new__(cls)
+                inst.__attrs_init__(*pos, **dict(kw))
+            else:
+                inst = cls(*pos, **dict(kw))
             out = "done"
         except Marker as m:
             out = ("raised", m.idx)
@@ -702,7 +751,7 @@ def enc_call(pos, kw, fault_at, validators_on):
 
 
 def signature_of(cls):
-    sig = inspect.signature(cls.__init__)
+    sig = inspect.signature(init_function(cls))
     out = []
     for p in list(sig.parameters.values())[1:]:
         out.append((p.name, p.kind is p.KEYWORD_ONLY, p.default is not p.empty))
@@ -715,7 +764,7 @@ def enc_definition(cut):
     cls = cut.cls
     sg = signature_of(cls)
     ann = []
-    for name, v in cls.__init__.__annotations__.items():
+    for name, v in init_function(cls).__annotations__.items():
         if name == "return":
             continue
         if isinstance(v, Ann):
